@@ -1,13 +1,29 @@
-(** C20 — MeCab model conversion preserves the model's bigram costs (PARTIAL, see below). *)
-From Vib Require Import Model.Base Model.Text Model.Scorer Model.Template Model.Mecab Proofs.ScorerProofs Proofs.TemplateProofs.
+(** C20 — MeCab model conversion preserves the model's bigram costs. *)
+From Vib Require Import Model.Base Model.Text Model.Scorer Model.Template Model.Mecab Proofs.ScorerProofs Proofs.TemplateProofs Proofs.RawSpecProofs Proofs.MecabProofs.
 Local Open Scope N_scope.
 
-(** The statement decided on every run by the oracle (Check/C20Check.v), kept visible:
-      for all non-zero ids r, l:
-        cost_raw (compile (generate_bigram_info m)) r l = c20_spec m r l
-    where [c20_spec] is the sum, over the bigram templates that apply to both ids, of
-    -trunc(weight x cost_factor) of the model.def line whose text is the left expansion, '/',
-    the right expansion.  It is not proved end to end; what is proved are its components: *)
+(** END TO END.  [gen] is the model of [generate_bigram_info] on parsed inputs (interning of the
+    template expansions of every right-id.def / left-id.def line, the id maps, the bigram.cost line
+    of every model.def line, the rows of bigram.right / bigram.left); [build_raw] the model of the
+    raw connector compiled from those three files (C07).  For every MeCab model meeting
+    [wf_model] -- (a) a model.def line that yields a two-sided entry is the plain text
+    left '/' right, (b) one line per feature text, (c) the expansions on the rows of the non-zero
+    ids are non-empty, free of '/', and  a '/' c  holds no occurrence of BOS/EOS -- and for every
+    pair of non-zero ids, the connection cost of the compiled dictionary equals [c20_spec]: the
+    sum, over the bigram templates that apply to both ids, of -trunc(weight x cost_factor) of the
+    model.def line whose text is the left expansion, '/', the right expansion. *)
+Theorem c20_end_to_end : forall m right left lines fuel rc,
+  gen m = Ok (right, left, lines) -> build_raw fuel right left lines = Some rc -> wf_model m = true ->
+  N.of_nat (length lines) + 1 < INVALID ->
+  forall r l, (1 <= r <= length right)%nat -> (1 <= l <= length left)%nat ->
+  raw_cost rc (N.of_nat r) (N.of_nat l) = c20_spec m (N.of_nat r) (N.of_nat l).
+Proof. exact gen_end_to_end. Qed.
+
+(** the feature ids written as decimal numbers identify the interned strings *)
+Theorem c20_decimal_ids_injective : forall a b, show_N a = show_N b -> a = b.
+Proof. exact show_N_inj. Qed.
+
+(** Components, also used on their own: *)
 
 (** the intermediate feature ids written into bigram.right/left/cost identify the expanded
     strings: equal strings equal ids, different strings different ids *)
@@ -40,6 +56,21 @@ Example c20_example :
   c20_spec m 1 1 = (-1750)%Z /\ c20_spec m 1 2 = 0%Z.
 Proof. vm_compute. auto. Qed.
 
+(** non-vacuity of [c20_end_to_end]: its hypotheses hold for a concrete model, whose files compile *)
+Example c20_end_to_end_example :
+  let m := {| mi_bigrams := [([37;76;91;48;93], [37;82;63;91;49;93])];
+              mi_rightdef := [(0, [BOSEOS]); (1, [[97]])]; mi_leftdef := [(0, [BOSEOS]); (1, [[120]; [98]]); (2, [[120]; [42]])];
+              mi_model := [(25%Z, 1, [97;47;98]); (1%Z, 0, BOSEOS ++ [47;98])]; mi_factor := 700%Z |} in
+  wf_model m = true /\
+  match gen m with
+  | Ok (rrows, lrows, lines) =>
+      (length rrows = 1 /\ length lrows = 2)%nat /\
+      match build_raw 100 rrows lrows lines with Some rc => raw_cost rc 1 1 = (-1750)%Z /\ raw_cost rc 1 2 = 0%Z | None => False end
+  | _ => False
+  end.
+Proof. vm_compute. auto. Qed.
+
+Print Assumptions c20_end_to_end.
 Print Assumptions c20_same_string_same_id.
 Print Assumptions c20_diff_string_diff_id.
 Print Assumptions c20_template_applies.
